@@ -53,6 +53,7 @@ type c31Dir struct {
 	wdone   bool
 
 	smallBufs bool
+	arena     []byte // recycled backing array for windowed read buffers
 	delivered int64
 	rerr      error
 	reads     int
@@ -129,10 +130,35 @@ func (d *c31Dir) spawnReader(s *sched, rc *kit.RunCtx, sc *network.SecureConn) {
 	s.spawn("R"+d.name, func() {
 		for {
 			size := drawBuf(rc.Tape, d.smallBufs)
-			buf := make([]byte, size)
+			var buf []byte
+			off := -1
+			if rc.Tape.Choose("bufmode", 2) == 1 {
+				// a short window of a larger, recycled array (cap(buf) > len(buf)): the reader may use
+				// only buf[:len(buf)]; everything else in the array is the caller's and is repainted before each Read
+				if d.arena == nil {
+					d.arena = make([]byte, 3*4096)
+				}
+				for i := range d.arena {
+					d.arena[i] = 0xEE
+				}
+				off = rc.Tape.Choose("bufoff", len(d.arena)-size+1)
+				buf = d.arena[off : off+size]
+				rc.Probe("read_into_window_of_larger_array")
+			} else {
+				buf = make([]byte, size)
+			}
 			n, err := sc.Read(buf)
 			d.reads++
-			rc.Event("%s Read(buf %d) = %d err=%v", d.name, size, n, err != nil)
+			rc.Event("%s Read(buf %d off %d) = %d err=%v", d.name, size, off, n, err != nil)
+			if off >= 0 {
+				for i, c := range d.arena {
+					if (i < off || i >= off+size) && c != 0xEE {
+						rc.Violate("read-wrote-outside-buffer", "SecureConn.Read wrote beyond len(buf)",
+							"%s: Read into a %d-byte window at offset %d of a larger array changed byte %d of that array (outside the window)", d.name, size, off, i)
+						return
+					}
+				}
+			}
 			if n > size {
 				rc.Violate("read-overrun", "SecureConn.Read n>len(buf)",
 					"%s: Read with a %d-byte buffer returned n=%d (err=%v) at stream position %d: %d decrypted bytes were dropped",
